@@ -193,3 +193,112 @@ family!(S4, S4Init, E4, E4InitN, E4InitP, E4InitQ, E4Ref, E4Mut, BoolVec, "u16",
 family!(S5, S5Init, E5, E5InitN, E5InitP, E5InitQ, E5Ref, E5Mut, VecU16, "u16", "S{A,B,C,FlatVec<u16,u16>}", "E{N|P(A,B,C)|Q{B,A,C,FlatVec<u16,u16>}}");
 family!(S6, S6Init, E6, E6InitN, E6InitP, E6InitQ, E6Ref, E6Mut, FlexB, "u32", "S{A,B,C,FlexVec<u8,u8>}", "E{N|P(A,B,C)|Q{B,A,C,FlexVec<u8,u8>}}");
 family!(S7, S7Init, E7, E7InitN, E7InitP, E7InitQ, E7Ref, E7Mut, VecA3, "u32", "S{A,B,C,FlatVec<[u8;3],u16>}", "E{N|P(A,B,C)|Q{B,A,C,FlatVec<[u8;3],u16>}}");
+
+// ---------------------------------------------------------------------------------------------
+// Length / offset type dimension: FlatVec<u16, L>, FlatString<L> and FlexVec<FlatVec<u8,u8>, L>
+// for every native and portable length type.
+
+macro_rules! lenfam {
+    ($V:ident, $S:ident, $X:ident, $L:ty, $lname:expr) => {
+        pub type $V = FlatVec<u16, $L>;
+        impl ZooMsg for $V {
+            const NAME: &'static str = concat!("FlatVec<u16,", $lname, ">");
+            fn gen(g: &mut Gen) -> Val {
+                let n = g.len();
+                Val::L((0..n).map(|_| Val::I(g.int(16, false))).collect())
+            }
+            fn emplace_val<'b>(bytes: &'b mut [u8], v: &Val) -> Result<&'b mut Self, Error> {
+                Self::new_in_place(bytes, flatty::vec::FromIterator(v.list().iter().map(|x| x.int() as u16)))
+            }
+            fn read(&self) -> Val {
+                rd_vec(self, |x| Val::I(*x as i128))
+            }
+            fn tweak(&mut self, g: &mut Gen) {
+                tweak_vec(self, g, |g| g.int(16, false) as u16);
+            }
+        }
+        pub type $S = flatty::FlatString<$L>;
+        impl ZooMsg for $S {
+            const NAME: &'static str = concat!("FlatString<", $lname, ">");
+            fn gen(g: &mut Gen) -> Val {
+                let n = g.len();
+                Val::S(g.string(n))
+            }
+            fn emplace_val<'b>(bytes: &'b mut [u8], v: &Val) -> Result<&'b mut Self, Error> {
+                Self::new_in_place(bytes, flatty::string::FromStr(v.str()))
+            }
+            fn read(&self) -> Val {
+                rd_str(self)
+            }
+            fn tweak(&mut self, g: &mut Gen) {
+                tweak_str(self, g);
+            }
+        }
+        pub type $X = flatty::FlexVec<VecB8, $L>;
+        impl ZooMsg for $X {
+            const NAME: &'static str = concat!("FlexVec<FlatVec<u8,u8>,", $lname, ">");
+            fn gen(g: &mut Gen) -> Val {
+                gen_flex::<VecB8>(g)
+            }
+            fn emplace_val<'b>(bytes: &'b mut [u8], v: &Val) -> Result<&'b mut Self, Error> {
+                emplace_flex::<VecB8, $L>(bytes, v)
+            }
+            fn read(&self) -> Val {
+                read_flex(self)
+            }
+            fn tweak(&mut self, g: &mut Gen) {
+                tweak_flex(self, g);
+            }
+        }
+    };
+}
+use flatty::portable::{be, le};
+lenfam!(LV0, LS0, LX0, u64, "u64");
+lenfam!(LV1, LS1, LX1, usize, "usize");
+lenfam!(LV2, LS2, LX2, be::U16, "be::U16");
+lenfam!(LV3, LS3, LX3, le::U32, "le::U32");
+lenfam!(LV4, LS4, LX4, be::U32, "be::U32");
+lenfam!(LV5, LS5, LX5, le::U64, "le::U64");
+lenfam!(LV6, LS6, LX6, be::U64, "be::U64");
+
+// smallest variant last
+#[flat(sized = false, default = true)]
+pub enum LastUnit {
+    Data(u32, FlatVec<u8, u16>),
+    Pair(u16, u16),
+    #[default]
+    Ping,
+}
+impl ZooMsg for LastUnit {
+    const NAME: &'static str = "LastUnit";
+    fn gen(g: &mut Gen) -> Val {
+        match g.weighted(&[3, 2, 3]) {
+            0 => {
+                let a = g.int(32, false);
+                let n = g.len();
+                Val::V(0, vec![Val::I(a), Val::L((0..n).map(|_| Val::I(g.int(8, false))).collect())])
+            }
+            1 => Val::V(1, vec![Val::I(g.int(16, false)), Val::I(g.int(16, false))]),
+            _ => Val::V(2, vec![]),
+        }
+    }
+    fn emplace_val<'b>(bytes: &'b mut [u8], v: &Val) -> Result<&'b mut Self, Error> {
+        match v.tag() {
+            0 => Self::new_in_place(bytes, LastUnitInitData(v.field(0).int() as u32, flatty::vec::FromIterator(v.field(1).list().iter().map(|x| x.int() as u8)))),
+            1 => Self::new_in_place(bytes, LastUnitInitPair(v.field(0).int() as u16, v.field(1).int() as u16)),
+            _ => Self::new_in_place(bytes, LastUnitInitPing),
+        }
+    }
+    fn read(&self) -> Val {
+        match self.as_ref() {
+            LastUnitRef::Data(a, v) => Val::V(0, vec![Val::I(*a as i128), rd_vec(v, |x| Val::I(*x as i128))]),
+            LastUnitRef::Pair(a, b) => Val::V(1, vec![Val::I(*a as i128), Val::I(*b as i128)]),
+            LastUnitRef::Ping => Val::V(2, vec![]),
+        }
+    }
+    fn tweak(&mut self, g: &mut Gen) {
+        if let LastUnitMut::Data(_, v) = self.as_mut() {
+            tweak_vec(v, g, |g| g.int(8, false) as u8);
+        }
+    }
+}
